@@ -1,4 +1,5 @@
 import PQ.Lemmas.History
+import PQ.Lemmas.DebugLemmas
 /-!
 # C04 — "Fault-free use never panics and never touches memory out of bounds"
 
@@ -114,6 +115,17 @@ theorem C04_leaked_iterMut {q : Q P} (hq : QWF q) (prog : List (ICall × IMWrite
     fun i hi => by have := hlt i hi; rw [h.map_size] at this; exact this, hkeys⟩
   simp only [step, hrun, bind, Except.bind, pure, Except.pure, if_true]
 
+/-- **C04, `Debug`** (`{:?}` of both queue kinds goes through `impl Debug for Store`, which `unwrap`s a map lookup for
+every heap position): after every history from `new()` — leaked guards included — formatting does not panic, and what it
+lists is, in heap order, every slot exactly once together with the entry stored in that slot. -/
+theorem C04_debug_after_history (ops : List (Op P)) (hl : ∀ op ∈ ops, op.Legal) (k : Kind) :
+    ∃ q' outs l, run (Q.new k) ops = .ok (q', outs) ∧ q'.s.debugEntries = .ok l ∧
+      l.map (·.1) = q'.s.heap.toList ∧ l.length = q'.s.size ∧
+      ∀ x ∈ l, q'.s.map[x.1]? = some (x.2.1, x.2.2) := by
+  obtain ⟨q', outs, h1, _, h3⟩ := C04_from_any_wf ops (hist_new_wf k) hl
+  obtain ⟨l, h4, h5, h6, h7⟩ := debugEntries_wf q'.s h3
+  exact ⟨q', outs, l, h1, h4, h5, h6, h7⟩
+
 /-! ## Non-vacuity: histories that leak a guard and continue, on both kinds -/
 section Examples
 
@@ -143,6 +155,12 @@ example : hist_okR (run (Q.new .dpq) exOps) (fun r => r.1.s.WF ∧ r.2.length = 
 example : hist_okR (run (Q.new .pq) (exOps.take 2)) (fun r => r.1.s.WF ∧ ¬ MaxQ.Inv r.1.s ∧ r.1.s.size = 9) := by
   decide +kernel
 example : hist_okR (run (Q.new .pq) (exOps.take 18)) (fun r => r.1.s.WF ∧ ¬ MaxQ.Inv r.1.s) := by decide +kernel
+-- `Debug` on the disordered queue: nine entries, heap order
+example : hist_okR (run (Q.new .dpq) (exOps.take 2))
+    (fun r => (match r.1.s.debugEntries with | .ok l => l.length == 9 | .error _ => false) = true) := by decide +kernel
+-- and the `unwrap` is real: a table naming a slot the map does not have makes `Debug` panic
+example : (match ({ map := #[], heap := #[0], qp := #[0], size := 1 } : Store Nat).debugEntries with
+    | .error (.unwrapNone 190) => true | _ => false) = true := by decide
 -- the hypothesis `Legal` is needed: a `get_mut` write that changes the identity of an item breaks key uniqueness
 example : ¬ (Op.getMut 1 (fun _ => ⟨2, 0⟩) : Op Nat).Legal := fun h => absurd (h ⟨1, 0⟩) (by decide)
 example : hist_okR (run (Q.new .pq) [.push ⟨1, 0⟩ 1, .push ⟨2, 0⟩ 2, .getMut 1 (fun _ => ⟨2, 0⟩)])
@@ -159,3 +177,4 @@ end PQ
 #print axioms PQ.C04_every_prefix
 #print axioms PQ.C04_step
 #print axioms PQ.C04_leaked_iterMut
+#print axioms PQ.C04_debug_after_history
